@@ -86,8 +86,12 @@ def main():
         confirmed = rc_with != 0 and rc_without == 0 and "rejected" not in meta
         meta["confirmed"] = confirmed
         print("confirmed:", confirmed, "(demo with change rc=%s, without rc=%s)" % (rc_with, rc_without))
+        # Freeze the harness sources, so that edits made while a long queue of
+        # evaluations runs do not leak into it.
+        frozen = os.path.join(scratch, "harness")
+        shutil.copytree(os.path.join(VERIF, "harness"), frozen)
         for c in checks:
-            env2 = dict(os.environ, VERIF_REPO=repo, VERIF_EVIDENCE_DIR=os.path.join(scratch, "ev"), VERIF_REPLAY_DIR=os.path.join(scratch, "replays"))
+            env2 = dict(os.environ, VERIF_REPO=repo, VERIF_HARNESS=frozen, VERIF_EVIDENCE_DIR=os.path.join(scratch, "ev"), VERIF_REPLAY_DIR=os.path.join(scratch, "replays"))
             t0 = time.time()
             r = subprocess.run([os.path.join(VERIF, "check"), c, tier], cwd=VERIF, env=env2, capture_output=True, text=True)
             sigs = sorted({l.strip() for l in r.stdout.splitlines() if l.strip().startswith("signature:")})[:4]
